@@ -314,10 +314,11 @@ PROPS = {
                     "Upper bound (C07_no_longer_prefix_viable, C07_error_is_local): a locality lemma for every lexical function (what it does strictly inside a prefix does not depend on what follows: Lemmas/Local.lean), lifted to the machine (run_local_err), error monotonicity across option records (run_emono), completeness of the parser for LDoc (C12). "
                     "Lower bound (C07_prefix_viable): every machine step that touches the reported offset - fails there or stops exactly there - can be completed (partial numbers through the automaton's suffix languages, literals, string elements incl. partial \\uXXXX and pending surrogates, keys and colons: Lemmas/TokComplete.lean, StepComplete.lean), from any well-formed configuration the run on `0` plus the closing brackets succeeds (run_close), and the steps strictly before the offset are replayed by locality (run_viable, by functional induction over all 25 cases of the machine). "
                     "Also proved for all inputs (incl. failing streams) and all option records (C07_boundary_partial and corollaries): every offset in every error is a character boundary inside the input; Unexpected(p, c) carries exactly the character at p and None exactly when p is the input length; InvalidUtf8 is reported at the end of the well-formed prefix and only for ill-formed input; surrogate-error spans have both ends on boundaries, in order. "
-                    "Not proved: that surrogate spans lie INSIDE the escape(s) they blame - tested by a direct span-shape check on every rejected input (the MissingLowSurrogate overshoot found by it was repaired: fix: commit). The independent predictive (LL(1)) recogniser still runs on every rejected input as an oracle for the viable-prefix clause on the real code."),
+                    "Surrogate errors (C07_surrogate_inside, every input and option record): the span of MissingLowSurrogate / InvalidLowSurrogate / InvalidUnicodeCodePoint is exactly the uXXXX part of an escape of the input that writes the code unit carried by the error, and the high surrogate carried by InvalidLowSurrogate was written by the escape directly before it (invariant HighAt through the string scanner, Lemmas/SurrIn.lean; the MissingLowSurrogate overshoot this clause exposed on the original tree was repaired: fix: commit). "
+                    "Every clause of the property is thus a theorem on the model; the independent predictive (LL(1)) recogniser and the span-shape check still run on every rejected input as oracles on the real code."),
         level_note="Trusted: Lean kernel; model validated by correspondence (full error projection); harness reference recogniser.",
         rule="request = text/bytes + options; error projection (variant, offsets, payload). Non-trivial = accepted inputs are trivial here: non-trivial counts distinct rejected... (harness counts accepted as non-trivial; see distribution.err_* for rejected kinds)",
-        strength="longest-viable-prefix clause, character clause, boundary clause and InvalidUtf8 clause proved on the model for all inputs; containment of surrogate spans in their escapes tested",
+        strength="full on the model: longest-viable-prefix clause (both halves), character clause, boundary clause, InvalidUtf8 clause and surrogate-span clause proved for all inputs; tie to the code by correspondence (full error projection) plus an independent recogniser",
         trusted_base=COMMON_TRUST + ["harness reference recogniser"],
         assumptions=[],
     ),
